@@ -207,7 +207,7 @@ pub fn run(scn: &Scenario, record: bool) -> RunResult {
             Api { w: &w, ep: 0, task: "env" }.ev("drop_sr", 0, 0, "ok", json!({}));
             let srh = reg.sr.take();
             if let Some(x) = srh.as_ref() {
-                if let Ok(v) = serde_json::from_str::<serde_json::Value>(&x.verif_snapshot()) {
+                if let Ok(v) = serde_json::from_str::<serde_json::Value>(&catch_unwind(AssertUnwindSafe(|| x.verif_snapshot())).unwrap_or_default()) {
                     w.lock().unwrap().log(json!({"t": "stats", "ep": "c", "conn_done": false, "at": "drop_sr", "s": v}));
                 }
             }
@@ -263,7 +263,15 @@ pub fn run(scn: &Scenario, record: bool) -> RunResult {
             for s in slots.iter_mut() {
                 if !s.done {
                     let mut sim = SimCtx { w: &w, reg: &mut reg, spawn: &mut spawn, scn };
-                    s.task.census(&mut sim);
+                    let task = &mut s.task;
+                    // (after a panic inside h2 its lock is poisoned: getters panic too - that is data, not a harness crash)
+                    if catch_unwind(AssertUnwindSafe(|| task.census(&mut sim))).is_err() {
+                        let msg = LAST_PANIC.with(|p| p.borrow().clone());
+                        let (name, ep) = (s.task.name().to_string(), s.task.ep());
+                        let mut g = match w.lock() { Ok(g) => g, Err(p) => p.into_inner() };
+                        g.log(json!({"t": "panic", "ep": EP[ep], "task": name, "msg": msg}));
+                        s.done = true;
+                    }
                 }
             }
             w.lock().unwrap().log(json!({"t": "census_end"}));
@@ -271,7 +279,7 @@ pub fn run(scn: &Scenario, record: bool) -> RunResult {
             for s in slots.iter() {
                 if s.task.is_conn() {
                     let ep = s.task.ep();
-                    let snap = if s.done { if ep == 0 { reg.sr.as_ref().map(|x| x.verif_snapshot()) } else { None } } else { s.task.stats() };
+                    let snap = catch_unwind(AssertUnwindSafe(|| if s.done { if ep == 0 { reg.sr.as_ref().map(|x| x.verif_snapshot()) } else { None } } else { s.task.stats() })).unwrap_or(None);
                     if let Some(js) = snap {
                         match serde_json::from_str::<serde_json::Value>(&js) {
                             Ok(v) => w.lock().unwrap().log(json!({"t": "stats", "ep": EP[ep], "conn_done": s.done, "s": v})),
@@ -609,7 +617,7 @@ fn do_env(op: &EnvOp, w: &Shared, slots: &mut Vec<Slot>, reg: &mut Registry, spa
         EnvOp::DropSr => {
             if let Some(srh) = reg.sr.take() {
                 Api { w, ep: 0, task: "env" }.ev("drop_sr", 0, 0, "ok", json!({}));
-                if let Ok(v) = serde_json::from_str::<serde_json::Value>(&srh.verif_snapshot()) {
+                if let Ok(v) = serde_json::from_str::<serde_json::Value>(&catch_unwind(AssertUnwindSafe(|| srh.verif_snapshot())).unwrap_or_default()) {
                     w.lock().unwrap().log(json!({"t": "stats", "ep": "c", "conn_done": false, "at": "drop_sr", "s": v}));
                 }
                 guarded_drop(w, "drop_sr", move || drop(srh));
@@ -620,7 +628,8 @@ fn do_env(op: &EnvOp, w: &Shared, slots: &mut Vec<Slot>, reg: &mut Registry, spa
             for s in slots.iter_mut() {
                 if !s.done {
                     let mut sim = SimCtx { w, reg, spawn, scn };
-                    s.task.census(&mut sim);
+                    let task = &mut s.task;
+                    let _ = catch_unwind(AssertUnwindSafe(|| task.census(&mut sim)));
                 }
             }
             w.lock().unwrap().log(json!({"t": "census_end"}));
